@@ -2,6 +2,7 @@
 Model of the shutdown protocol of the NATS server (C20):
 
   lib/go/nats_server.go   Serve, drainNatsMessages, Stop, handler, worker, processFrame
+  lib/go/processor.go     FBaseProcessorFunction.SendReply / SendError / trapError (the write mutex)
   nats.go v1.33.1         Subscription (pending list, one callback goroutine per subscription),
                           Drain / Conn.Flush / Conn.Barrier
   nats-server             SUB/UNSUB/PUB processing in connection order
@@ -9,14 +10,16 @@ Model of the shutdown protocol of the NATS server (C20):
 A system is: the broker side of the server's subscription (`active`, and `inflight` = requests
 the broker has accepted for the subscription and not yet handed to the client library), the
 nats.go subscription (`pending` FIFO, the callback goroutine `cb`, the `barrier` flag), and the
-frugal side: `workC` (a channel of capacity `q`, `closed`), the workers, the program counters of
-`Serve` and `Stop`, and the history (`arrived`, `processed`, `replied`, as lists = multisets).
+frugal side: `workC` (a channel of capacity `q`, `closed`), the workers with the processor's write
+mutex `wmu`, the program counters of `Serve` and `Stop`, and the history (`arrived`, `handed`,
+`processed`, `replied`, `dropped`, as lists = multisets).
 
 One `Action` is one statement group that is atomic in the code: a single channel operation, one
-library call, one protocol message processed by the broker. `step s a = none` means the action is
-not enabled: the goroutine is blocked there (handler on a full `workC`, worker on an empty open
-`workC`, `wg.Wait` while a worker is alive, the barrier while a callback is outstanding) or is
-not at that point.
+library call, one mutex operation, one protocol message processed by the broker.
+`step s a = none` means the action is not enabled: the goroutine is blocked there (handler on a
+full `workC`, worker on an empty open `workC` or on the write mutex, `wg.Wait` while a worker is
+alive, the barrier while a callback is outstanding, `sendMu.Lock` in Serve while a handler is
+inside its send) or is not at that point.
 
 Contract of nats.go / the broker that is assumed (read from the sources, not verified):
   * the broker hands the messages of one subscription over in the order it accepted them and
@@ -28,8 +31,21 @@ Contract of nats.go / the broker that is assumed (read from the sources, not ver
   * the function given to `Conn.Barrier` runs after every callback pending at the call completed
     (`barrierFires` needs `pending = []` and an idle callback goroutine).
 
-A send on the closed `workC` would be a Go panic; the model records it in `panicked` instead of
-blocking, so that "never happens" is a theorem about reachable states rather than a convention.
+FAULTS. `fault` (adversary, any time, once) stands for: the application closes the connection, the
+broker goes away, the link stalls beyond the flush timeout. Afterwards `Drain` / `Flush` /
+`Barrier` may return an error (`drainFail`: Serve hands the error to Stop and goes on to close the
+work queue) — or not, and the drain may even "succeed" without the broker having removed the
+subscription (`drainStartIgnored`); messages in flight or pending may never be delivered (no action forces
+`deliver` / `cbStart`), or may still be (a stall that recovers): the model allows both.
+
+Two parameters describe the code:
+  * `guarded` — Serve closes `workC` holding `sendMu` exclusively, the handler sends holding it
+    shared and turns requests away once `stopped` is set (the code since fix 2a98083). With
+    `guarded = false` (the code before) `close(workC)` can happen under a sender: a send on the
+    closed channel is a Go panic, recorded in `panicked`.
+  * `reentrant` — `trapError` would answer an oversize reply through the LOCKING `SendError`
+    while `SendReply` holds the write mutex (not the code; a mutation of it): the worker blocks
+    on the mutex it holds.
 -/
 import FV.Basic
 
@@ -40,13 +56,18 @@ abbrev Msg := Nat
 /-- The subscription's callback goroutine (`waitForMsgs` → `fNatsServer.handler`). -/
 inductive Cb where
   | idle                    -- waiting for the next pending message
-  | sending (m : Msg)       -- in `handler`, at `f.workC <- frame` for request `m`
+  | sending (m : Msg)       -- in `handler` (holding `sendMu` shared), at `f.workC <- frame` for request `m`
   | sent (m : Msg)          -- the send completed, `handler` has not returned yet
   deriving DecidableEq, Repr
 
 inductive Wk where
   | idle                    -- at `for frame := range f.workC`
-  | busy (m : Msg)          -- in `processFrame` for request `m`
+  | busy (m : Msg)          -- in `processFrame`: the handler method for request `m` runs
+  | locking (m : Msg)       -- at `writeMu.Lock()` in `SendReply` / `SendError`
+  | writing (m : Msg)       -- holds the write mutex, writes the reply into the output buffer
+  | overflow (m : Msg)      -- holds it; the reply exceeded the limit (`trapError`), the error reply is next
+  | written (m : Msg)       -- holds it; the reply (or the error reply) is in the buffer; `Unlock` is next
+  | publishing (m : Msg)    -- mutex released; `conn.Publish(reply)` and back to the loop head
   | exited                  -- the range loop ended (`workC` closed and empty), `wg.Done` ran
   deriving DecidableEq, Repr
 
@@ -56,8 +77,8 @@ inductive ServePc where
   | gotQuit                 -- received the rendezvous; about to call `sub.Drain()`
   | unsubbed                -- `Drain` called and UNSUB processed by the broker; in `conn.Flush()`
   | barrierWait             -- `Flush` returned, `Barrier` registered; `<-barrier`
-  | barrierDone             -- barrier fired; at `done <- err`
-  | resultSent              -- Stop has the result; about to `close(f.workC)`
+  | barrierDone             -- `drainNatsMessages` returned (barrier fired, or an error); at `done <- err`
+  | resultSent              -- Stop has the result; at `sendMu.Lock()` / `close(f.workC)`
   | closedQ                 -- `wg.Wait()`
   | returned
   deriving DecidableEq, Repr
@@ -72,7 +93,10 @@ inductive StopPc where
 
 structure Sys where
   q : Nat                   -- capacity of `workC`
+  guarded : Bool            -- close of `workC` under `sendMu` (the code as it is)
+  reentrant : Bool          -- `trapError` re-locks the write mutex (a mutation; the code: false)
   active : Bool             -- broker: the subscription exists
+  faulty : Bool             -- a connection fault has happened
   inflight : List Msg       -- broker → client library (oldest first)
   pending : List Msg        -- nats.go pending list, callbacks not started (oldest first)
   cb : Cb
@@ -80,38 +104,56 @@ structure Sys where
   workC : List Msg          -- oldest first
   closed : Bool
   workers : List Wk
+  wmu : Option Nat          -- which worker holds the processor's write mutex
   serve : ServePc
   stop : StopPc
   arrived : List Msg        -- every request the broker accepted for the subscription
+  handed : List Msg         -- every request the handler took over (reached its send to `workC`)
   processed : List Msg      -- one entry per invocation of the processor
-  replied : List Msg        -- one entry per reply published
+  replied : List Msg        -- one entry per reply handed to the connection
+  dropped : List Msg        -- turned away by the handler after the queue was closed
   panicked : Bool           -- a send on the closed `workC` happened
   deriving DecidableEq, Repr
 
 inductive Action where
   | arrive (m : Msg)        -- adversary: the broker accepts request `m` for the subscription
+  | fault                   -- adversary: connection closed / broker gone / link stalled
   | deliver                 -- broker → nats.go: oldest in-flight message is appended to `pending`
   | cbStart                 -- callback goroutine pops the oldest pending message, enters `handler`
   | handlerEnqueue          -- `f.workC <- frame` completes into the buffer
   | callbackDone            -- `handler` returns; nats.go decrements the pending count
   | workerTake (i : Nat)    -- worker `i` receives from `workC` (or directly from the blocked sender)
-  | workerReply (i : Nat)   -- worker `i`: processor ran, reply published, back to the loop head
+  | workerHandlerDone (i : Nat) -- the handler method returned; `SendReply` / `SendError` is entered
+  | workerLock (i : Nat)    -- `writeMu.Lock()` succeeds
+  | workerWriteOk (i : Nat) -- the reply fits: written
+  | workerOverflow (i : Nat) -- the reply exceeds the limit: `trapError`
+  | workerErrReply (i : Nat) -- `sendError` writes RESPONSE_TOO_LARGE under the mutex already held
+  | workerUnlock (i : Nat)  -- `writeMu.Unlock()`
+  | workerReply (i : Nat)   -- reply published, back to the loop head
   | workerExit (i : Nat)    -- worker `i` sees `workC` closed and empty
   | stopCall                -- `Stop()` is called: blocks at `f.quit <- done`
   | serveGotQuit            -- rendezvous on `quit`
   | drainStart              -- `sub.Drain()`: UNSUB processed by the broker, no arrivals after
+  | drainStartIgnored       -- after a fault: `sub.Drain()` returns nil but the broker does not act on the UNSUB
+                            -- (a nats-server that is shutting down ignores UNSUB and still answers PING)
   | flushBarrier            -- `conn.Flush()` returned (PONG), `conn.Barrier(f)` registered
   | barrierFires            -- every callback pending at the barrier call completed: `close(barrier)`
+  | drainFail               -- after a fault: `Drain` / `Flush` / `Barrier` returns an error
   | sendResult              -- rendezvous `done <- err` / `<-done`
   | stopReturn              -- `Stop()` returns
-  | closeWorkC              -- `close(f.workC)`
+  | closeWorkC              -- `sendMu.Lock(); stopped = true; close(f.workC); sendMu.Unlock()`
   | serveReturn             -- `wg.Wait()` returns, `Serve` returns
   deriving DecidableEq, Repr
 
-def init (w q : Nat) : Sys :=
-  { q := q, active := true, inflight := [], pending := [], cb := .idle, barrier := false,
-    workC := [], closed := false, workers := List.replicate w .idle, serve := .running,
-    stop := .notCalled, arrived := [], processed := [], replied := [], panicked := false }
+def initP (guarded reentrant : Bool) (w q : Nat) : Sys :=
+  { q := q, guarded := guarded, reentrant := reentrant, active := true, faulty := false,
+    inflight := [], pending := [], cb := .idle, barrier := false,
+    workC := [], closed := false, workers := List.replicate w .idle, wmu := none, serve := .running,
+    stop := .notCalled, arrived := [], handed := [], processed := [], replied := [], dropped := [],
+    panicked := false }
+
+/-- The code as it is. -/
+def init (w q : Nat) : Sys := initP true false w q
 
 def allExited (ws : List Wk) : Bool := ws.all (· == .exited)
 
@@ -120,13 +162,17 @@ def step (s : Sys) : Action → Option Sys
     if s.active ∧ m ∉ s.arrived then
       some { s with inflight := s.inflight ++ [m], arrived := s.arrived ++ [m] }
     else none
+  | .fault =>
+    if s.faulty then none else some { s with faulty := true }
   | .deliver =>
     match s.inflight with
     | m :: rest => some { s with inflight := rest, pending := s.pending ++ [m] }
     | [] => none
   | .cbStart =>
     match s.cb, s.pending with
-    | .idle, m :: rest => some { s with cb := .sending m, pending := rest }
+    | .idle, m :: rest =>
+      if s.guarded ∧ s.closed then some { s with pending := rest, dropped := s.dropped ++ [m] }  -- `stopped`: turned away
+      else some { s with cb := .sending m, pending := rest, handed := s.handed ++ [m] }
     | _, _ => none
   | .handlerEnqueue =>
     match s.cb with
@@ -153,9 +199,36 @@ def step (s : Sys) : Action → Option Sys
             some { s with cb := .sent m, workers := s.workers.set i (.busy m), processed := s.processed ++ [m] }
         | _ => none                                                      -- blocked: nothing to receive
     | _ => none
+  | .workerHandlerDone i =>
+    match s.workers[i]? with
+    | some (.busy m) => some { s with workers := s.workers.set i (.locking m) }
+    | _ => none
+  | .workerLock i =>
+    match s.workers[i]? with
+    | some (.locking m) =>
+      if s.wmu = none then some { s with workers := s.workers.set i (.writing m), wmu := some i } else none
+    | _ => none
+  | .workerWriteOk i =>
+    match s.workers[i]? with
+    | some (.writing m) => some { s with workers := s.workers.set i (.written m) }
+    | _ => none
+  | .workerOverflow i =>
+    match s.workers[i]? with
+    | some (.writing m) => some { s with workers := s.workers.set i (.overflow m) }
+    | _ => none
+  | .workerErrReply i =>
+    match s.workers[i]? with
+    | some (.overflow m) =>
+      if s.reentrant ∧ s.wmu ≠ none then none     -- the mutation: Lock() on the mutex this worker holds
+      else some { s with workers := s.workers.set i (.written m) }
+    | _ => none
+  | .workerUnlock i =>
+    match s.workers[i]? with
+    | some (.written m) => some { s with workers := s.workers.set i (.publishing m), wmu := none }
+    | _ => none
   | .workerReply i =>
     match s.workers[i]? with
-    | some (.busy m) => some { s with workers := s.workers.set i .idle, replied := s.replied ++ [m] }
+    | some (.publishing m) => some { s with workers := s.workers.set i .idle, replied := s.replied ++ [m] }
     | _ => none
   | .workerExit i =>
     match s.workers[i]? with
@@ -168,10 +241,16 @@ def step (s : Sys) : Action → Option Sys
     if s.serve = .running ∧ s.stop = .atQuit then some { s with serve := .gotQuit, stop := .waitResult } else none
   | .drainStart =>
     if s.serve = .gotQuit then some { s with serve := .unsubbed, active := false } else none
+  | .drainStartIgnored =>
+    if s.faulty ∧ s.serve = .gotQuit then some { s with serve := .unsubbed } else none
   | .flushBarrier =>
     if s.serve = .unsubbed ∧ s.inflight = [] then some { s with serve := .barrierWait, barrier := true } else none
   | .barrierFires =>
     if s.serve = .barrierWait ∧ s.barrier ∧ s.pending = [] ∧ s.cb = .idle then
+      some { s with serve := .barrierDone, barrier := false }
+    else none
+  | .drainFail =>
+    if s.faulty ∧ (s.serve = .gotQuit ∨ s.serve = .unsubbed ∨ s.serve = .barrierWait) then
       some { s with serve := .barrierDone, barrier := false }
     else none
   | .sendResult =>
@@ -179,7 +258,7 @@ def step (s : Sys) : Action → Option Sys
   | .stopReturn =>
     if s.stop = .gotResult then some { s with stop := .returned } else none
   | .closeWorkC =>
-    if s.serve = .resultSent then some { s with serve := .closedQ, closed := true } else none
+    if s.serve = .resultSent ∧ (s.guarded → s.cb = .idle) then some { s with serve := .closedQ, closed := true } else none
   | .serveReturn =>
     if s.serve = .closedQ ∧ allExited s.workers then some { s with serve := .returned } else none
 
@@ -190,10 +269,18 @@ def run (s : Sys) : List Action → Option Sys
     | some s' => run s' as
     | none => none
 
-/-- Everything but the broker accepting a new request and the user calling `Stop`. -/
+/-- Everything but the adversary: the broker accepting a new request, a connection fault, the
+user calling `Stop`. -/
 def Action.isSystem : Action → Bool
   | .arrive _ => false
+  | .fault => false
   | .stopCall => false
   | _ => true
+
+/-- The steps of the workers. -/
+def Action.isWorker : Action → Bool
+  | .workerTake _ | .workerHandlerDone _ | .workerLock _ | .workerWriteOk _ | .workerOverflow _
+  | .workerErrReply _ | .workerUnlock _ | .workerReply _ | .workerExit _ => true
+  | _ => false
 
 end FV.NS
